@@ -39,6 +39,13 @@ Theorem C14_tsv : forall p u, printable_ok p = true -> printable_ok u = true ->
 Proof. exact tsv_roundtrip. Qed.
 Print Assumptions C14_tsv.
 
+(* What the run observes (the converter read back from what was written) is the property stated on the records alone: the same
+   records up to the order of the synonym lists (EPM), the written prefix -> URI prefix pairs (JSON-LD, SHACL, TSV) and the patterns
+   (SHACL) -- for every strict record list of the quantified alphabets, every format and flag *)
+Theorem C14_P_model : forall rs fmt syn ex, valid_wr rs fmt = true -> model_wobs rs fmt syn ex = spec_wobs rs fmt syn.
+Proof. exact model_is_spec. Qed.
+Print Assumptions C14_P_model.
+
 (* without the escaping a backslash does not survive: defect D5 *)
 Example C14_unescaped_refuted : turtle_unescape [97; 92; 98]%N = Some [97; 8]%N /\ turtle_unescape (escape_bs [97; 92; 98]%N) = Some [97; 92; 98]%N.
 Proof. vm_compute. auto. Qed.
